@@ -1,4 +1,6 @@
 import J5V.Codec.ScalarProofs
+import J5V.Codec.RoundtripProofs
+import J5V.Generated.CodecFacts
 /-!
 # C01 — JSON codec round-trip: `decode (encode m) = m`
 
@@ -44,7 +46,67 @@ theorem C01_date_inv (y m d : Int) (hy : 0 ≤ y) (hy2 : y < 2 ^ 31) (hm : 1 ≤
     dateFromString (dateString y m d) = some (y, m, d) :=
   date_inv y m d hy hy2 hm hm2 hd hd2
 
+/-! ## structure level -/
+
+/-- **Full statement** of C01 on the byte level: for every environment, every root and every
+representable message, encoding succeeds and decoding the bytes gives the message back. -/
+def C01_roundtrip_full : Prop :=
+  ∀ (c : Cfg) (_ : OracleLaws c.O) (root : String) (m : Fields),
+    (valOk c.env c.O (.object root) (.msg m) = true ∨ valOk c.env c.O (.oneof root) (.msg m) = true) →
+    ∃ bs, encodeBytes c.env c.O root (.msg m) = .ok bs ∧ decodeBytes c root bs = .ok m
+
+/-- **Proved part (`_partial`)**: on the level of JSON trees, for every *simple* environment
+(`Env.simple`: one-element proto paths — no flattened objects, no exposed oneofs —, no `Any`, no
+anonymous proto oneof inside an object) and every representable message (`valOk`: sorted store,
+only schema fields, representable scalars, valid UTF-8, defined enum numbers, non-empty lists and
+maps with distinct keys, at most one oneof member, decimals in normal form): whatever tree the
+encoder writes, the decoder maps back to exactly the original message. Covers objects, wrapper
+oneofs (`!type` framing), enums, arrays and maps of scalars / enums / objects / oneofs, every
+scalar kind, recursion through named roots, presence (unset members stay unset).
+
+Missing for the full statement: (a) flattened objects, exposed oneofs, `Any`, anonymous proto
+oneofs; (b) `readDoc (render t) = t` for encoder trees (the reader inverts the renderer —
+the string part is `C08_escape_valid`, numbers `scanNumber_fmtInt`); (c) that encoding succeeds
+(no error / fuel exhaustion) on every representable message. -/
+theorem C01_roundtrip_tree_partial (c : Cfg) (hs : c.env.simple = true) (L : OracleLaws c.O)
+    (root : String) (m : Fields) (t : PTree)
+    (hok : valOk c.env c.O (.object root) (.msg m) = true ∨
+      valOk c.env c.O (.oneof root) (.msg m) = true)
+    (henc : encodeTree c.env c.O root (.msg m) = .ok t) : decRootTree c root t = .ok m :=
+  roundtrip_tree c hs L root m t hok henc
+
 /-! ## Non-vacuity -/
+
+/-- a simple environment with every supported construct: scalars of several kinds, an enum, a
+recursive object reference, an array of objects, maps, a wrapper oneof -/
+def sampleEnv : Env :=
+  { defs := [
+      ("t.E", .enum (ascii "E_") [(ascii "UNSPECIFIED", 0), (ascii "A", 1), (ascii "B", 2)]),
+      ("t.W", .oneof [
+        { jsonName := ascii "s", path := [1], pres := .opt, field := .scalar .string, group := some 0 },
+        { jsonName := ascii "o", path := [2], pres := .msg, field := .object "t.M", group := some 0 }]),
+      ("t.M", .object [
+        { jsonName := ascii "name", path := [1], pres := .imp, field := .scalar .string },
+        { jsonName := ascii "n", path := [2], pres := .opt, field := .scalar .int64 },
+        { jsonName := ascii "e", path := [3], pres := .imp, field := .enum "t.E" },
+        { jsonName := ascii "kids", path := [4], pres := .list, field := .array (.object "t.M") },
+        { jsonName := ascii "tags", path := [5], pres := .map, field := .map (.scalar .string) },
+        { jsonName := ascii "w", path := [6], pres := .msg, field := .oneof "t.W" },
+        { jsonName := ascii "when", path := [7], pres := .msg, field := .scalar .date },
+        { jsonName := ascii "raw", path := [8], pres := .imp, field := .scalar .bytes },
+        { jsonName := ascii "es", path := [9], pres := .list, field := .array (.enum "t.E") }])] }
+
+/-- a message using all of it (optional-with-zero-value `n`, nested message in an array, a oneof
+arm holding a message, a map with two keys) -/
+def sampleMsg : Fields :=
+  [(1, .str (ascii "x")), (2, .int 0), (3, .enum 2),
+   (4, .list [.msg [(1, .str [0xC3, 0xA9])], .msg []]),
+   (5, .map [(ascii "a", .str []), (ascii "b", .str (ascii "q\""))]),
+   (6, .msg [(2, .msg [(2, .int (-5))])]),
+   (7, .date 33 1 2), (8, .bytes [0, 255]), (9, .list [.enum 1, .enum 0])]
+
+example : sampleEnv.simple = true := by decide
+example : valOk sampleEnv toyOracle (.object "t.M") (.msg sampleMsg) = true := by decide
 
 /-- the oracle laws are satisfiable -/
 example : OracleLaws toyOracle := toyOracle_laws
@@ -60,5 +122,27 @@ example : scalarRepr toyOracle .float64 (.f64 0x7ff0000000000000) = false := by 
 example : scalarRepr toyOracle .bytes (.bytes [0, 255, 16]) = true := by decide
 /-- the recorded (and repaired) defect: year 33 used to be written `"  33-01-02"` -/
 example : dateString 33 1 2 = ascii "0033-01-02" := by decide
+
+/-! ## source facts
+Obligations over `J5V.Generated.Codec` (regenerated from /repo's current source by extract/codec.go at
+every check run). Maintained by codec-go; they tie the model's case analysis to the switches in
+the Go source. -/
+section SourceFacts
+open J5V.Generated.Codec
+
+/-- both directions of the scalar codec cover the same schema kinds and formats -/
+theorem C01_src_inverse_pair_coverage :
+    reflectFromGoCases = goFromReflectCases ∧
+    reflectFromGoIntegerFormats = goFromReflectIntegerFormats ∧
+    reflectFromGoFloatFormats = goFromReflectFloatFormats := by decide
+
+/-- the decoder parses timestamps with the layout that accepts everything the encoder's layout prints -/
+theorem C01_src_timestamp_layouts :
+    timestampEncodeLayout = "time.RFC3339Nano" ∧ timestampDecodeLayout = "time.RFC3339" ∧
+    dateStringFormat = "%04d-%02d-%02d" := by decide
+
+theorem C01_src_extractor_ok : codecExtractorOk = true := by decide
+
+end SourceFacts
 
 end J5V.Props.C01
